@@ -17,7 +17,7 @@ from ..ref import formula as F
 
 ID = 'C17'
 LEVEL = 'exploration'
-BUDGET_S = {'quick': 150, 'thorough': 1500}
+BUDGET_S = {'quick': 300, 'thorough': 1500}
 RELATION = 'substring-algebra'
 RULE = ('one workbook per generated text with up to ~25 formulas over it; non-trivial = the count or position is on a boundary '
         '(0, length, length +- 1), or the text is empty, or contains a wildcard / regex-special character, or differs in case '
